@@ -991,12 +991,44 @@ class Engine:
         if st.frames and fr.ret_to is not None:
             st.frames[-1].regs[fr.ret_to] = v
 
+    def _immediate(self, fv):
+        """the callee is executed by the engine itself (builtin, intrinsic, stub) instead of getting a frame"""
+        if isinstance(fv, Builtin):
+            return True
+        if not isinstance(fv, Closure):
+            return True
+        fn = self.funcs[fv.fid]
+        name = fn['origin'] or fn['name']
+        if name in self.intr or name in self.stubs:
+            return True
+        if fn['external']:
+            from . import stubs as _stubs
+            return _stubs.resolve(fn['name']) is not None or True
+        return False
+
     def op_RunDefers(self, st, fr, ins):
-        if fr.defers:
-            raise Unsupported('defers')
+        if not fr.defers:
+            return
+        fv, args = fr.defers[-1]
+        fake = {'op': 'Call', 'pos': ins.get('pos', '')}
+        if self._immediate(fv):
+            # a scheduling point inside the stub rewinds to this RunDefers with the defer still pending
+            self.call(st, fv, args, fake)
+            fr.defers.pop()
+            fr.ip -= 1          # come back for the remaining deferred calls
+        else:
+            fr.defers.pop()
+            fr.ip -= 1
+            self.call(st, fv, args, fake)
 
     def op_Defer(self, st, fr, ins):
-        raise Unsupported('defer at ' + ins.get('pos', '?'))
+        if 'invoke' in ins:
+            raise Unsupported('defer of an interface method call')
+        fv = self.val(st, fr, ins['fnv'])
+        args = [self.val(st, fr, a) for a in ins['args']]
+        if fr.defers is None:
+            fr.defers = []
+        fr.defers.append((fv, args))
 
     def op_Go(self, st, fr, ins):
         raise Unsupported('go statement at ' + ins.get('pos', '?'))
